@@ -36,6 +36,9 @@ def float_configs():
                     continue
                 out.append(("float", w, enc, lsb))
     out += [("float", 32, "MILSTD_1750A", False), ("float", 32, "MILSTD_1750A", True)]
+    # spellings the library accepts with a deprecation warning: the same formats under another name
+    out += [("float", 32, "MIL-1750A", False), ("float", 32, "MIL-1750A", True), ("float", 32, "IEEE-754", False), ("float", 64, "IEEE-754", True),
+            ("float", 16, "IEEE-754", False)]
     return out
 
 
@@ -66,7 +69,7 @@ def int_patterns(w, full_upto):
 
 def float_patterns(cfg, tier):
     fam, w, enc, lsb = cfg
-    if enc == "MILSTD_1750A":
+    if enc in ("MILSTD_1750A", "MIL-1750A"):
         mants = sorted(set([0, 1, 2, 0x7FFFFF, 0x800000, 0x800001, 0xFFFFFF, 0xFFFFFE, 0x400000, 0xC00000, 0x400001,
                             0xBFFFFF, 0x200000, 0x600000, 0xA00000, 0xE00000, 0x123456, 0xEDCBA9, 0x000100, 0x010000]
                            + [1 << b for b in range(24)] + [0xFFFFFF ^ (1 << b) for b in range(0, 24, 2)]))
@@ -171,7 +174,7 @@ def run(ctx):
     f_offsets = [0, 3] if ctx.quick else offsets
     for off in offsets:
         for cfg in fcfgs:
-            heavy = cfg[1] == 16 or cfg[2] == "MILSTD_1750A"
+            heavy = cfg[1] == 16 or cfg[2] in ("MILSTD_1750A", "MIL-1750A")
             if heavy and off not in f_offsets:
                 continue
             tasks.append({"cfgs": [cfg], "offset": off, "tier": ctx.tier})
@@ -183,7 +186,7 @@ def run(ctx):
         "bound": ("integers: widths 1..72, 80, 96, 100, 127, 128, 129, 200, 256 x {unsigned, signed, twosComplement} x {MSB first, LSB first for whole-byte widths} x "
                   f"bit offsets 0..7 x (ALL 2^w patterns for w <= {12 if ctx.quick else 16}, else boundary/walking/alternating/index family) x "
                   "neighbour fill {0,1}; floats: binary16 ALL 65536 patterns, binary32/64 every exponent x mantissa family + walking bits + "
-                  "specials, MIL-STD-1750A all 256 exponents x ~60 mantissas, both byte orders, "
+                  "specials, MIL-STD-1750A all 256 exponents x ~60 mantissas, both byte orders, also under the deprecated spellings 'MIL-1750A' / 'IEEE-754', "
                   f"offsets {'0,3 for the full sweeps, 0..7 for binary32/64' if ctx.quick else '0..7'}; "
                   "per configuration and offset, the first two patterns are also decoded twice from one raw packet object of the framer"),
         "rule": ("one evaluation = one packet parsed by the loaded definition and by the reference interpreter; distinct non-trivial = "
